@@ -5,6 +5,9 @@ payload {mode: 'roundtrip', cases: [[{name, section, v}, ...], ...]}
         each case assigns a value to every parameter; the set is dumped with Parameters.dump_file and
         read back by a FRESH Parameters object; every value is returned in an exact tagged form
 payload {mode: 'boolean', cases: [str, ...]}     -> parse_boolean on each string
+payload {mode: 'history', cases: [{entry, table, files, ops}]} -> histories of read_file / set_value / dump_file on ONE
+        Parameters object (plain, or the one held by a BIOGEME object); after every dump / read the file is read by a
+        fresh Parameters object
 Tagged values: ['b', bool] | ['i', decimal str] | ['f', hex of the IEEE bits] | ['s', str]."""
 import json
 import signal
@@ -84,6 +87,80 @@ def roundtrip(case, idx):
     return out
 
 
+def toml_text(entries):
+    """a hand-written parameter file (NOT produced by the library under test): entries = [{name, section, text}]"""
+    secs = {}
+    for e in entries:
+        secs.setdefault(e['section'], []).append(f"{e['name']} = {e['text']}")
+    return ''.join(f'[{sec}]\n' + '\n'.join(lines) + '\n\n' for sec, lines in secs.items())
+
+
+def all_values(p, table):
+    return [tag(p.get_value(a['name'], a['section'])) for a in table]
+
+
+def history(case, idx):
+    """a history of read_file / set_value (or BIOGEME property setter) / dump_file on ONE Parameters object"""
+    import shutil
+    import tempfile
+    out = {'ok': False, 'steps': []}
+    root = os.getcwd()
+    d = tempfile.mkdtemp(dir=root)
+    os.chdir(d)
+    try:
+        signal.alarm(60)
+        table = case['table']
+        for fn, entries in case.get('files', {}).items():
+            with open(fn, 'w', encoding='utf-8') as f:
+                f.write(toml_text(entries))
+        entry, b = case.get('entry', 'parameters'), None
+        if entry == 'parameters':
+            p = Parameters()
+        else:
+            sys.path.insert(0, os.path.dirname(os.path.abspath(__file__)))
+            from c14_fake import tiny_logit
+            import biogeme.biogeme as bio
+            db_, ll = tiny_logit('tiny')
+            if entry == 'biogeme_default':
+                b = bio.BIOGEME(db_, ll)
+            elif entry == 'biogeme_file':
+                b = bio.BIOGEME(db_, ll, parameters=case['parameter_file'])
+            else:
+                b = bio.BIOGEME(db_, ll, parameters=Parameters())
+            p = b.biogeme_parameters
+        out['initial'] = all_values(p, table)
+        for op in case['ops']:
+            step = {'op': op['op'], 'exc': None}
+            try:
+                if op['op'] == 'set':
+                    if op.get('via') == 'property' and b is not None:
+                        setattr(b, op['name'], untag(op['v']))
+                    else:
+                        p.set_value(op['name'], untag(op['v']), op['section'])
+                elif op['op'] == 'dump':
+                    p.dump_file(op['file'])
+                elif op['op'] == 'read':
+                    p.read_file(op['file'])
+                step['kept'] = all_values(p, table)
+                if op['op'] in ('dump', 'read'):
+                    q = Parameters()
+                    q.read_file(op['file'])
+                    step['readback'] = all_values(q, table)
+            except Exception as e:  # noqa
+                step['exc'] = {'exc': type(e).__name__, 'msg': str(e)[:300]}
+            out['steps'].append(step)
+        out['ok'] = True
+        signal.alarm(0)
+    except Exception as e:  # noqa
+        signal.alarm(0)
+        out['exc'] = type(e).__name__
+        out['msg'] = str(e)[:300]
+    finally:
+        os.chdir(root)
+        shutil.rmtree(d, ignore_errors=True)
+    return out
+
+
 def boolean(s):
     try:
         r = parse_boolean(s)
@@ -116,6 +193,14 @@ def main():
                 res.append({'ok': False, 'exc': 'TimeoutError', 'msg': 'skipped after 3 timeouts'})
                 continue
             res.append(roundtrip(c, i))
+            timeouts += res[-1].get('exc') == 'TimeoutError'
+    elif mode == 'history':
+        res, timeouts = [], 0
+        for i, c in enumerate(payload['cases']):
+            if timeouts >= 3:
+                res.append({'ok': False, 'exc': 'TimeoutError', 'msg': 'skipped after 3 timeouts', 'steps': []})
+                continue
+            res.append(history(c, i))
             timeouts += res[-1].get('exc') == 'TimeoutError'
     elif mode == 'boolean':
         res = [boolean(s) for s in payload['cases']]
